@@ -5,26 +5,31 @@ namespace Tu.Drive
 open Tu Tu.Wire
 
 /-- request: N skip limit? ff rank W -/
-def loaderD (op : String) (args : List Nat) : Option String :=
-  match op with
-  | "select" => some <| match runP (do
+def selectAnswer (args : List Nat) : String :=
+  match runP (do
         let n ← pNat; let skip ← pNat; let lim ← pOpt pNat; let ff ← pNat; let rank ← pNat; let w ← pNat
         let _rest ← pNats
         let invalid ← pNats
         pure (n, skip, lim, ff, rank, w, invalid)) args with
-      | some (n, skip, lim, ff, rank, w, invalid) =>
-        if w == 0 || rank ≥ w then reject else
-        -- the line-by-line mirror of the adaptor chain with saturating `usize` arithmetic must give the
-        -- specification's answer (`C08u.selectChainU_eq`, `minItemsU_eq` prove it for every corpus that can exist;
-        -- here it is evaluated on the request)
-        if n < U64 && (selectChainU n skip lim ff rank w invalid != some (selectValid n skip lim ff rank w invalid) ||
-            minItemsU n skip lim != minItems n skip lim) then "refuse model-arithmetic" else
-        ok (eNats (selectValid n skip lim ff rank w invalid) ++ [minItems n skip lim])
-      | none => reject
+  | some (n, skip, lim, ff, rank, w, invalid) =>
+    if w == 0 || rank ≥ w then reject else
+    -- the line-by-line mirror of the adaptor chain with saturating `usize` arithmetic must give the
+    -- specification's answer (`C08u.selectChainU_eq`, `minItemsU_eq` prove it for every corpus that can exist;
+    -- here it is evaluated on the request)
+    if n < U64 && (selectChainU n skip lim ff rank w invalid != some (selectValid n skip lim ff rank w invalid) ||
+        minItemsU n skip lim != minItems n skip lim) then "refuse model-arithmetic" else
+    ok (eNats (selectValid n skip lim ff rank w invalid) ++ [minItems n skip lim])
+  | none => reject
+
+def loaderD (op : String) (args : List Nat) : Option String :=
+  match op with
+  | "select" => some (selectAnswer args)
+  -- the same loader after its files held other content of the same size: the model has no file system state
+  | "selectreload" => some (selectAnswer args)
   | "selectstall" => some <| match args with
       -- the same loader while one worker is held up for several seconds of wall time after it processed item
       -- `k`: the model has no clock, the answer is that of `select`
-      | _ms :: _k :: rest => (loaderD "select" rest).getD reject
+      | _ms :: _k :: rest => selectAnswer rest
       | _ => reject
   | _ => none
 
